@@ -22,6 +22,7 @@ import (
 	"encoding/base64"
 	"fmt"
 	"strconv"
+	"strings"
 	"sync"
 	"time"
 
@@ -655,6 +656,9 @@ func (e *MetaCDC) validCreateRequest(req *request.CreateRequest) error {
 			if len(db) > e.config.MaxNameLength {
 				return servererror.NewClientError(fmt.Sprintf("the db name length exceeds %d characters, %s", e.config.MaxNameLength, db))
 			}
+			if strings.Contains(db, ".") {
+				return servererror.NewClientError(fmt.Sprintf("the db name can't contain the '.' character, %s", db))
+			}
 			err = e.checkCollectionInfos(infos)
 			if err != nil {
 				break
@@ -663,6 +667,19 @@ func (e *MetaCDC) validCreateRequest(req *request.CreateRequest) error {
 	}
 	if err != nil {
 		return err
+	}
+
+	// the full name of a collection is `db.collection`, so a '.' inside a name can't be told from the separator
+	for _, mapping := range req.NameMapping {
+		mappingNames := []string{mapping.SourceDB, mapping.TargetDB}
+		for s, t := range mapping.CollectionMapping {
+			mappingNames = append(mappingNames, s, t)
+		}
+		for _, name := range mappingNames {
+			if strings.Contains(name, ".") {
+				return servererror.NewClientError(fmt.Sprintf("the name in the name mapping can't contain the '.' character, %s", name))
+			}
+		}
 	}
 
 	if req.RPCChannelInfo.Name != "" && req.RPCChannelInfo.Name != e.config.SourceConfig.ReplicateChan {
@@ -715,6 +732,9 @@ func (e *MetaCDC) checkCollectionInfos(infos []model.CollectionInfo) error {
 	for _, info := range infos {
 		if info.Name == "" {
 			emptyName = true
+		}
+		if strings.Contains(info.Name, ".") {
+			return servererror.NewClientError(fmt.Sprintf("the collection name can't contain the '.' character, %s", info.Name))
 		}
 		if info.Name == cdcreader.AllCollection && len(infos) > 1 {
 			return servererror.NewClientError(fmt.Sprintf("make sure the only one collection if you want to use the '*' collection param, current param: %v",
